@@ -215,7 +215,9 @@ Inductive op :=
 | ExtDelete (r k : N)
 | Trash (l : list N)
 | EmptyTrash
-| RegRemove (l : list N).
+| RegRemove (l : list N)
+| Trash1 (d : N)
+| Ingest (d1 d2 r k : N).
 
 Definition store (s : st) (d r k : N) (newrow : bool) : st :=
   mk (colls s) (chains s) (if newrow then (d, (r, k)) :: ds s else ds s) (tags s) (calibs s)
@@ -223,6 +225,27 @@ Definition store (s : st) (d r k : N) (newrow : bool) : st :=
 
 Definition unwrite (s : st) (p : art) : st :=
   mk (colls s) (chains s) (ds s) (tags s) (calibs s) (loc s) (trash s) (recs s) (filter (fun q => negb (art_eqb q p)) (files s)).
+
+(* Datastore.trash called on its own (outside a registry transaction): bridge.moveToTrash deletes the location rows and inserts
+   them into dataset_location_trash inside ONE database transaction; when a moved id already has a (stale) trash row the insert hits
+   the primary key, the transaction is rolled back and the error is swallowed (ignore_errors=True): nothing happens.  (Inside
+   pruneDatasets / removeRuns the same failure does not undo the delete -- the outer registry transaction continues --, which is
+   what trash_refs describes for a single moved row.) *)
+Definition ds_trash (l : list N) (s : st) : st :=
+  if existsb (fun d => memN d (loc s) && memN d (trash s)) l then s else trash_refs l s.
+
+(* Butler.ingest(FileDataset(path, refs=[ref1, ref2]), transfer="copy"): ONE file for TWO datasets of the same run and dataset
+   type.  The second data ID is the "sibling" of the first inside its dataset type (a key is 3 * type + detector). *)
+Definition sib (k : N) : N := 3 * (k / 3) + (k + 1) mod 3.
+(* registry half (_importDatasets) for one ref: an id the registry has must have the same definition, a new id must not take the
+   (run, type, data ID) of another dataset *)
+Definition imp_ok (s : st) (d : N) (a : art) : bool :=
+  match ds_get s d with
+  | Some a' => art_eqb a' a
+  | None => negb (existsb (fun p => art_eqb (snd p) a) (ds s))
+  end.
+Definition add_row (s : st) (d : N) (a : art) (rows : list (N * art)) : list (N * art) :=
+  if has_ds s d then rows else (d, a) :: rows.
 
 (* associate: one row per dataset; a different dataset with the same key already in the collection is a conflict *)
 Fixpoint tag_all (s : st) (c : N) (l : list N) (acc : list (N * N)) : option (list (N * N)) :=
@@ -333,10 +356,29 @@ Definition step (s : st) (o : op) : st * outcome :=
   | ExtDelete r k =>
     (mk (colls s) (chains s) (ds s) (tags s) (calibs s) (loc s) (trash s) (recs s)
         (filter (fun p => negb (art_eqb p (r, k))) (files s)), Ok)
-  | Trash l => (trash_refs l s, Ok)
+  | Trash l => (ds_trash l s, Ok)
   | EmptyTrash => (empty_trash s, Ok)
   | RegRemove l =>
     match reg_remove l s with Some s' => (s', Ok) | None => (s, Err Orphaned) end
+  | Trash1 d =>
+    (* Datastore.trash(ref) with a single ref: the records are looked up and the artifact is checked first; an unknown dataset
+       or a missing artifact is a warning and nothing happens *)
+    (if artifact_present s d then ds_trash [d] s else s, Ok)
+  | Ingest d1 d2 r k =>
+    (* the whole of Butler.ingest is one transaction.  Registry half first (run, then the two refs); then the datastore half:
+       the file is copied to the place the template gives the FIRST ref (overwriting), one records row per ref naming that
+       artifact, one location row per ref.  When the datastore already knows one of the ids the insert fails, the database is
+       rolled back AND THE COPIED FILE IS REMOVED -- also when it replaced an artifact that was there before (F-C01-reingest) *)
+    match ctype s r with
+    | None => (s, Err MissingColl)
+    | Some Run =>
+      if d1 =? d2 then (s, Err Conflict)
+      else if negb (imp_ok s d1 (r, k) && imp_ok s d2 (r, sib k)) then (s, Err Conflict)
+      else if has_rec s d1 || memN d1 (loc s) || (has_rec s d2 || memN d2 (loc s)) then (unwrite s (r, k), Err Conflict)
+      else (mk (colls s) (chains s) (add_row s d1 (r, k) (add_row s d2 (r, sib k) (ds s))) (tags s) (calibs s)
+               (d1 :: d2 :: loc s) (trash s) ((d1, (r, k)) :: (d2, (r, k)) :: recs s) (addA (r, k) (files s)), Ok)
+    | Some _ => (s, Err CollType)
+    end
   end.
 
 Definition exec (s : st) (o : op) : st := fst (step s o).
